@@ -369,11 +369,24 @@ def check_c10(idx: Index, tier: str, res: Result) -> None:
         return e
     cnt = resolve(kw.get("count"))
     ms = [k for k, v in assigns.items() if any(isinstance(x, ast.Call) and call_name(x) == "matrix_size" for x in v)]
-    ok = cnt is not None and bool(ms) and nf(cnt) == nf("%s[0] * %s[1]" % (ms[0], ms[0]))
+    # the two components of matrix_size(): size[0] / size[1], or the names it is unpacked into (rows, columns = ...matrix_size())
+    comp = {0: set(), 1: set()}
+    for m_ in ms:
+        comp[0].add("%s[0]" % m_)
+        comp[1].add("%s[1]" % m_)
+    for n in walk_no_nested(rkf.node):
+        if isinstance(n, ast.Assign) and isinstance(n.targets[0], (ast.Tuple, ast.List)) and len(n.targets[0].elts) == 2 \
+                and isinstance(n.value, ast.Call) and call_name(n.value) == "matrix_size" and all(isinstance(e, ast.Name) for e in n.targets[0].elts):
+            comp[0].add(n.targets[0].elts[0].id)
+            comp[1].add(n.targets[0].elts[1].id)
+            ms = ms or ["(%s, %s)" % (n.targets[0].elts[0].id, n.targets[0].elts[1].id)]
+    ok = cnt is not None and isinstance(cnt, ast.BinOp) and isinstance(cnt.op, ast.Mult) and (
+        (src(cnt.left) in comp[0] and src(cnt.right) in comp[1]) or (src(cnt.left) in comp[1] and src(cnt.right) in comp[0]))
     res.check("AGG", "rank clamps against rows x columns", ok, rkf.loc(fmts[0]), rkf.qual, "count=%s" % (src(cnt) if cnt is not None else "?"),
               "the rank is clamped against %s, not against the number of all elements (rows x columns): on a matrix every rank larger than "
               "that silently returns a different entry" % (src(cnt) if cnt is not None else "?"), key="AGG/ArrayRankOperator/count")
-    fix = [g for g in walk_no_nested(rkf.node) if isinstance(g, ast.If) and bool(ms) and src(g.test).replace(" ", "") in ("%s[1]<=0" % ms[0], "%s[1]<1" % ms[0])]
+    fix = [g for g in walk_no_nested(rkf.node) if isinstance(g, ast.If) and any(src(g.test).replace(" ", "") in ("%s<=0" % c_, "%s<1" % c_, "%s==0" % c_) for c_ in comp[1])
+           and any(isinstance(b, ast.Assign) and src(b.targets[0]) in comp[1] and isinstance(b.value, ast.Constant) and b.value.value == 1 for b in g.body)]
     res.check("AGG", "a vector counts as one column", bool(fix), rkf.loc(), rkf.qual, "if matrix_size[1] <= 0: matrix_size[1] = 1",
               "the column count of a plain vector (0) is not replaced by 1: the element count of a vector would be 0", key="AGG/ArrayRankOperator/vector-columns")
     arr = resolve(kw.get("arr"))
